@@ -86,6 +86,10 @@ type SignerSpec struct {
 	FailsToSign bool
 	// CurveBits: bit size of the curve of an ECDSA signer's key (0 for the other families).
 	CurveBits int
+	// SizeClass: set for the signers of the signature-size dimension (ext_sigsize.go): which length
+	// form the estimate falls in and whether the signature is as long as the estimate. Qualifies
+	// violation keys.
+	SizeClass string
 }
 
 // EcdsaMaxDER is the length of the longest ASN.1 DER ECDSA signature (SEQUENCE of two INTEGERs)
